@@ -11,17 +11,22 @@ from ..facts import AnalysisError
 from . import c04
 
 TARGETS = ('--lib',)
-MINE = ('C02.1', 'C02.2', 'C02.3', 'C02.4', 'C02.5', 'C05.4')
+MINE = ('C02.1', 'C02.2', 'C02.3', 'C02.4', 'C02.5', 'C02.7', 'C02.8', 'C05.4')
 
 
-def drop_rule(f, rep, rid):
+def drop_rule(f, rep, rid, what='dirty'):
     """An entry leaves the slice cache only (a) handed to the caller, who decides about the write-back, or
     (b) on a decision that looked at its dirty flag.  A dirty entry that is dropped silently is never written:
     every later flush_meta() returns Ok without it."""
     from ..interp import Program, short
     from ..guard import Deps
-    rep.rule(rid, 'AsyncLruCache removes an entry from the map only when the removed value is handed to the caller or the '
-                  'removal is decided by a test of the entry\'s dirty flag (remove / retain / clear / drain on the entry map)')
+    TESTFN = {'dirty': ('::is_dirty',), 'unused': ('::strong_count',)}[what]
+    if what == 'dirty':
+        rep.rule(rid, 'AsyncLruCache removes an entry from the map only when the removed value is handed to the caller or the '
+                      'removal is decided by a test of the entry\'s dirty flag (remove / retain / clear / drain on the entry map)')
+    else:
+        rep.rule(rid, 'AsyncLruCache removes an entry from the map without handing it to the caller only on a test of its reference '
+                      'count (an entry another operation holds is not dropped: its holder would update an orphan that no flush finds)')
     P = Program(f)
     REMOVERS = ('HashMap::<K, V, S, A>::remove', 'HashMap::<K, V, S, A>::retain', 'HashMap::<K, V, S, A>::clear',
                 'HashMap::<K, V, S, A>::drain', 'HashMap::<K, V, S, A>::remove_entry', 'HashMap::<K, V, S, A>::extract_if')
@@ -54,7 +59,7 @@ def drop_rule(f, rep, rid):
                     st = b.blocks[sbi]['term']
                     if st['k'] == 'switch':
                         d = dp.of_operand(st['d'], (sbi, 10 ** 6))
-                        if any(x[0] == 'fn' and x[1].endswith('::is_dirty') for x in d):
+                        if any(x[0] == 'fn' and x[1].endswith(TESTFN) for x in d):
                             out.append(sbi)
                 return out
             sw = dirty_switches()
@@ -69,10 +74,15 @@ def drop_rule(f, rep, rid):
                 cty = f.types[b.locals[t['args'][1]['pl']['l']]] if t['args'][1]['k'] in ('copy', 'move') else None
                 cp = cty.get('p') if cty else None
                 cb = f.body(cp) if cp else None
-                decided = cb is not None and any((ct.get('fn') or '').endswith('::is_dirty') for _x, ct in cb.calls())
+                decided = cb is not None and any((ct.get('fn') or '').endswith(TESTFN) for _x, ct in cb.calls())
             ok = handed or decided
-            rep.ob(rid, site, ok, 'removed value handed to the caller' if handed else ('decided by a dirty-flag test' if decided else 'neither handed back nor decided by the dirty flag'))
-            if not ok:
+            rep.ob(rid, site, ok, 'removed value handed to the caller' if handed else ('decided by a %s test' % what if decided else 'neither handed back nor decided by such a test'))
+            if not ok and what == 'unused':
+                rep.violation(rid, '%s:%s' % (rid, short(b.path)), b.where(bi),
+                              '%s removes entries from the slice cache without looking at their reference count and without handing '
+                              'them to the caller: a slice another operation is holding is dropped, that operation then changes an '
+                              'orphaned slice which no flush_meta() can find - the flag is cleared with the change only in RAM' % short(b.path))
+            elif not ok:
                 rep.violation(rid, '%s:%s' % (rid, short(b.path)), b.where(bi),
                               '%s removes entries from the slice cache without looking at their dirty flag and without handing them '
                               'to the caller: a slice changed in RAM (e.g. by a write that completed while a flush was waiting for '
@@ -92,6 +102,8 @@ def run(ctx, rep):
     rep.rule('C02.4', 'a function that clears the dirty flag of a slice writes that slice on every path')
     rep.rule('C02.5', 'a cached slice is written only by a function that consulted the new-cluster map in the same activation')
     rep.rule('C05.4', 'a slice write covers the whole slice (start 0, length byte_size)')
+    rep.rule('C02.8', 'a dirty block index taken off a top-table queue is written on every path that returns Ok')
+    rep.rule('C02.7', 'the dirty flag of a slice is cleared before its write is issued, or afterwards only before the guard held across the write is released')
     drop_rule(ctx.lib, rep, 'C02.6')
     d = c04.common(ctx, rep)
     if getattr(d, 'flag_invariant_used', False):
